@@ -13,10 +13,11 @@ Definition partial_entropy (lam : R) (K : nat) : R := Rsum (map (fun k => hx (pk
 
 Lemma pk_exp lam k : 0 < lam -> pk lam k = exp (qk lam k).
 Proof.
-  intros H. unfold pk, qk, lnfact. unfold Rminus. rewrite !exp_plus, exp_Ropp.
-  rewrite (exp_Ropp (ln (INR (fact k)))), exp_ln by apply INR_fact_lt_0.
+  intros H. unfold pk, qk, lnfact.
+  replace (- lam + INR k * ln lam - ln (INR (fact k))) with (- lam + (INR k * ln lam + - ln (INR (fact k)))) by ring.
+  rewrite !exp_plus, (exp_Ropp (ln (INR (fact k)))), exp_ln by apply INR_fact_lt_0.
   replace (exp (INR k * ln lam)) with (lam ^ k) by (rewrite <- ln_pow by exact H; rewrite exp_ln; [reflexivity|apply pow_lt; exact H]).
-  rewrite exp_Ropp. unfold Rdiv. ring.
+  unfold Rdiv. ring.
 Qed.
 
 Lemma hx_pk lam k : 0 < lam -> hx (pk lam k) = - (exp (qk lam k) * qk lam k).
@@ -61,7 +62,7 @@ Proof.
 Qed.
 
 Lemma fold_Rsum env l : fold_right (fun x acc => evalR env x + acc) 0 l = Rsum (map (evalR env) l).
-Proof. induction l as [|a l IH]; cbn; [reflexivity|rewrite <- IH; reflexivity]. Qed.
+Proof. induction l as [|a l IH]; cbn [fold_right map Rsum]; [reflexivity|]. unfold Rsum in IH. rewrite IH. reflexivity. Qed.
 
 (* the expression the interval layer evaluates IS the partial sum of -p_k ln p_k *)
 Theorem entropy_trunc_meaning K lamE lam : evalR [] lamE = lam -> 0 < lam ->
@@ -75,7 +76,8 @@ Proof.
   assert (T : forall k, (k <= K)%nat -> evalR env (term_expr K k) = exp (qk lam k) * qk lam k).
   { intros k Hk. unfold term_expr. cbn [evalR].
     assert (Q : - nth 0 env 0 + IZR (Z.of_nat k) * nth 1 env 0 - nth (2 + k) env 0 = qk lam k).
-    { unfold env. cbn [app nth]. rewrite (nth_indep _ 0 (lnfact 0)) by (rewrite map_length, seq_length; lia).
+    { unfold env. change (2 + k)%nat with (S (S k)). cbn [app nth].
+      rewrite (nth_indep _ 0 (lnfact 0)) by (rewrite map_length, seq_length; lia).
       rewrite map_nth, seq_nth by lia. cbn [plus]. rewrite <- INR_IZR_INZ. reflexivity. }
     rewrite Q. rewrite app_nth2 by lia. rewrite Hlen, Nat.sub_diag. reflexivity. }
   assert (G : forall l, (forall k, In k l -> (k <= K)%nat) ->
@@ -87,27 +89,22 @@ Proof.
   apply G. intros k Hk. apply in_seq in Hk. lia.
 Qed.
 
+Lemma Rsum_app l1 l2 : Rsum (l1 ++ l2) = Rsum l1 + Rsum l2.
+Proof. unfold Rsum. induction l1 as [|a l1 IH]; cbn [app fold_right]; [lra|]. rewrite IH. lra. Qed.
+
 Lemma partial_entropy_split lam K M : partial_entropy lam (K + M) = partial_entropy lam K + sumR (fun j => hx (pk lam (K + j))) M.
 Proof.
   induction M as [|M IH]; [rewrite Nat.add_0_r; cbn [sumR]; lra|].
   rewrite Nat.add_succ_r. unfold partial_entropy in *. rewrite seq_S, map_app.
-  assert (A : forall l1 l2, Rsum (l1 ++ l2) = Rsum l1 + Rsum l2) by (induction l1; intros; cbn in *; [lra|rewrite IHl1; lra]).
-  rewrite A, IH. cbn [sumR map Rsum fold_right plus]. rewrite Nat.add_succ_r. lra.
+  rewrite Rsum_app, IH. cbn [sumR map Rsum fold_right plus]. rewrite Nat.add_succ_r. lra.
 Qed.
 
-(* ---- the complete check: enclosure of S_K, p_K <= delta, 2 lam <= K+1 ---- *)
-Definition delta18 : expr := EQ 1 (10 ^ 18).
-Definition tail_margin : expr := EQ 1 (10 ^ 16).
-Definition pK_expr (K : nat) (lamE : expr) : expr :=   (* exp(q_K) - delta, with ln K! as a sum of logarithms *)
-  ELet lamE (ESub (EExp (ESub (EAdd (ENeg (EVar 0)) (EMul (EZ (Z.of_nat K)) (ELn (EVar 0))))
-                              (ESum (map (fun j => ELn (EZ (Z.of_nat j))) (seq 1 K))))) delta18).
-
+(* ---- the complete check: enclosure of S_K, p_K <= delta, 2 lam <= K+1 (Model/Poisson.v check_entropy_full_case) ---- *)
 Lemma lnfact_sum K : Rsum (map (fun j => ln (INR j)) (seq 1 K)) = lnfact K.
 Proof.
   induction K as [|K IH]; [unfold lnfact; cbn; symmetry; apply ln_1|].
   rewrite seq_S, map_app, lnfact_S.
-  assert (A : forall l1 l2, Rsum (l1 ++ l2) = Rsum l1 + Rsum l2) by (induction l1; intros; cbn in *; [lra|rewrite IHl1; lra]).
-  rewrite A, IH. cbn [map Rsum fold_right plus]. lra.
+  rewrite Rsum_app, IH. cbn [map Rsum fold_right plus]. lra.
 Qed.
 
 Lemma pK_meaning K lamE lam : evalR [] lamE = lam -> 0 < lam -> evalR [] (pK_expr K lamE) = pk lam K - / 10 ^ 18.
@@ -115,5 +112,57 @@ Proof.
   intros El Hl. unfold pK_expr. cbn [evalR app nth]. rewrite El, fold_Rsum, map_map.
   rewrite (map_ext (fun x => evalR [lam] (ELn (EZ (Z.of_nat x)))) (fun j => ln (INR j))) by (intros j; cbn [evalR]; rewrite <- INR_IZR_INZ; reflexivity).
   rewrite lnfact_sum, (pk_exp lam K Hl). unfold qk. rewrite <- INR_IZR_INZ. unfold delta18, EQ. cbn [evalR].
-  f_equal. unfold Rdiv. rewrite Rmult_1_l. f_equal. rewrite Zpower_nat_Z || idtac. rewrite <- (pow_IZR 10 18). reflexivity.
+  f_equal. unfold Rdiv. rewrite Rmult_1_l. f_equal. change (10 ^ 18)%Z with (10 ^ Z.of_nat 18)%Z. rewrite <- pow_IZR. reflexivity.
+Qed.
+
+From Interval Require Import Tactic.
+
+Lemma delta_small : / 10 ^ 18 <= exp (-1).
+Proof. interval. Qed.
+Lemma delta_tail : / 10 ^ 18 * (- ln (/ 10 ^ 18) + 2 * ln 2) <= / 10 ^ 16.
+Proof. interval. Qed.
+
+Lemma hx_nonneg x : 0 < x -> x <= 1 -> 0 <= hx x.
+Proof.
+  intros H0 H1. unfold hx. assert (ln x <= 0).
+  { destruct (Rle_lt_or_eq_dec _ _ H1) as [Hlt| ->]; [|rewrite ln_1; lra]. rewrite <- ln_1. apply Rlt_le, ln_increasing; assumption. }
+  nra.
+Qed.
+
+Lemma sumR_nonneg f n : (forall j, 0 <= f j) -> 0 <= sumR f n.
+Proof. intros H. induction n as [|n IH]; cbn [sumR]; [lra|]. specialize (H (S n)). lra. Qed.
+
+Theorem entropy_full_sound ln_ ld K vn vd : check_entropy_full_case (ln_, ld, K, vn, vd) = true ->
+  let lam := IZR ln_ / IZR ld in let v := IZR vn / IZR vd in
+  0 < lam /\ forall M, Rabs (partial_entropy lam (K + M) - v) <= / 10 ^ 9.
+Proof.
+  unfold check_entropy_full_case. rewrite !Bool.andb_true_iff. intros [[[[[H1 H2] H3] H4] H5] H6]. cbv zeta.
+  apply Z.ltb_lt in H1, H2, H3. apply Z.leb_le in H4.
+  set (lam := IZR ln_ / IZR ld).
+  assert (Hld : 0 < IZR ld) by (apply IZR_lt; exact H2).
+  assert (Hl : 0 < lam) by (unfold lam; apply Rdiv_lt_0_compat; [apply IZR_lt; exact H1|exact Hld]).
+  assert (El : evalR [] (EQ ln_ ld) = lam) by reflexivity.
+  assert (HK : 2 * lam <= INR (S K)).
+  { unfold lam. apply Rmult_le_reg_r with (IZR ld); [exact Hld|]. unfold Rdiv. rewrite Rmult_assoc, Rmult_assoc, Rinv_l, Rmult_1_r by lra.
+    rewrite INR_IZR_INZ, <- !mult_IZR. apply IZR_le. exact H4. }
+  assert (HpK : pk lam K <= / 10 ^ 18).
+  { apply (le0_sound prec80) in H5. rewrite (pK_meaning K _ lam El Hl) in H5. lra. }
+  apply close_sound in H6. rewrite (entropy_trunc_meaning K _ lam El Hl) in H6.
+  assert (Et : evalR [] (ESub (EQ 1 (10 ^ 9)) tail_margin) = / 10 ^ 9 - / 10 ^ 16).
+  { unfold tail_margin, EQ. cbn [evalR]. unfold Rdiv. rewrite !Rmult_1_l.
+    change (10 ^ 9)%Z with (10 ^ Z.of_nat 9)%Z. change (10 ^ 16)%Z with (10 ^ Z.of_nat 16)%Z. rewrite <- !pow_IZR. reflexivity. }
+  rewrite Et in H6. change (evalR [] (EQ vn vd)) with (IZR vn / IZR vd) in H6.
+  split; [exact Hl|]. intros M. rewrite partial_entropy_split.
+  pose proof (tail_bound lam K (/ 10 ^ 18) M Hl HK HpK delta_small) as Tb.
+  pose proof delta_tail as Dt.
+  assert (T0 : 0 <= sumR (fun j => hx (pk lam (K + j))) M).
+  { apply sumR_nonneg. intros j. apply hx_nonneg; [apply pk_pos; exact Hl|].
+    eapply Rle_trans; [apply pk_geometric; assumption|]. assert (P2 : 1 <= 2 ^ j) by (clear; induction j; cbn [pow]; lra).
+    apply Rle_trans with (pk lam K); [|assert (/ 10 ^ 18 <= 1) by interval; lra].
+    unfold Rdiv. rewrite <- (Rmult_1_r (pk lam K)) at 2. apply Rmult_le_compat_l; [apply Rlt_le, pk_pos; exact Hl|].
+    rewrite <- Rinv_1. apply Rinv_le_contravar; lra. }
+  set (S := partial_entropy lam K) in *. set (t := sumR (fun j => hx (pk lam (K + j))) M) in *. set (v := IZR vn / IZR vd) in *.
+  assert (H6' : - (/ 10 ^ 9 - / 10 ^ 16) <= S - v <= / 10 ^ 9 - / 10 ^ 16).
+  { unfold Rabs in H6. destruct (Rcase_abs (S - v)); lra. }
+  apply Rabs_le. lra.
 Qed.
